@@ -287,6 +287,9 @@ impl Prop for C20 {
         vec!["longest transmissions: 8 frames x 300 bytes on both chains (trailing flags and silence tail)".into()]
     }
     fn run(&self, c: &C20Case, ctx: &mut Ctx) {
+        // the arguments of the library's log statements are evaluated too (the default no-op
+        // logger discards the records): a log statement must not change what a block does
+        log::set_max_level(log::LevelFilter::Trace);
         let chain = if c.chain % 2 == 0 { "1200-afsk" } else { "9600-g3ruh" };
         let sr = rate_of(c);
         ctx.class(format!("chain={chain} rate={sr}"));
